@@ -140,8 +140,8 @@ def make_env(I, reg, dkf=(), dkr=(), anchored=False, classes=None):
                 weird.setdefault(sid, []).append(c.__name__)
         acc[sid] = a
     # "anchored at both ends" = the whole key matches the pattern (re.fullmatch), whatever the pattern's top-level operators are
-    pats = [re.compile(("(?:%s)\\Z" % r) if anchored else r) if isinstance(r, str) else r for r in dkr]
-    dkrm = {sid: [i + 1 for i, p in enumerate(pats) if p.match(s)] for s, sid in I.ids.items()}
+    pats = [re.compile(r) if isinstance(r, str) else r for r in dkr]
+    dkrm = {sid: [i + 1 for i, p in enumerate(pats) if (p.fullmatch(s) if anchored else p.match(s))] for s, sid in I.ids.items()}
     return {
         "reg": [c.__name__ for c in reg.types],
         "repl": sorted([a.__name__, b.__name__] for a, b in reg.replaces),
